@@ -26,6 +26,8 @@ import DisjointImpls.Lemmas.Acyclic
 import DisjointImpls.Lemmas.FlatAccept
 import DisjointImpls.Lemmas.ExpandInherent
 import DisjointImpls.Props.C17
+import DisjointImpls.Lemmas.ExpandItems
+import DisjointImpls.Lemmas.ExpandEmit
 open DI
 
 def rToSx : R → Sx
@@ -90,7 +92,16 @@ def handleExpand (args : List Sx) : Sx :=
                | some _ => .list []
                | none => (match helperTraitOfInherent firstItem idx nkeys, helperImpls idx g, mainImplInherent idx g with
                    | .ok tr, some hs, .ok (some m) => .list [boolSx (ExInh.sideConditions g), boolSx (expandOKInh_inh g (thetasOf g) tr hs m)]
-                   | _, _, _ => .list [boolSx (ExInh.sideConditions g), .sym "none"]))]))]
+                   | _, _, _ => .list [boolSx (ExInh.sideConditions g), .sym "none"])),
+              -- conclusions of C01_itemsOK_of_expand (trait mode) and C12_exact_checkers_hold (both modes) on the model's expansion
+              (match trait_ with
+               | some t => (match helperTraitOfTrait t idx nkeys, helperImpls idx g, mainImplOfTrait t idx g with
+                   | some ht, some hs, .ok m => .list [boolSx (expandWF g), boolSx (itemsOK_it t idx g ht hs m),
+                       boolSx (mainWhereExact_em trait_ idx g m), boolSx (helperRowsExact_em g hs)]
+                   | _, _, _ => .list [])
+               | none => (match helperImpls idx g, mainImplInherent idx g with
+                   | some hs, .ok (some m) => .list [boolSx false, boolSx true, boolSx (mainWhereExact_em none idx g m), boolSx (helperRowsExact_em g hs)]
+                   | _, _ => .list []))]))]
       | .unableToForm _ => .list [.sym "unable"]
       | .panic _ => .list [.sym "panic"]
   | _ => .list [.sym "bad-args"]
